@@ -179,7 +179,8 @@ CHECKS = {
     "C11": {
         "text": "Decides for all paths: transaction::run returns Ok only under confirmed_replicas.len() >= rf/2+1, with replicas counted on their Ok arm only and the "
                 "coordinator counted once; the client's Ok reply is dominated by the Ok arm of set_confirmations_with_retry, which itself returns Ok only on the Ok "
-                "arm of Database::set_confirmations; the count written is confirmed_replicas.len(). Does not decide 'never hidden by any later history'.",
+                "arm of Database::set_confirmations; the count written is confirmed_replicas.len(); the coordinator is counted only behind its own successful append and a replica's answer is the "
+                "result of its own append. Does not decide 'never hidden by any later history'.",
         "note": NOTE,
         "technique": "static analysis: quorum gate dominance, variant-edge dominance across await points, value-flow on MIR",
     },
